@@ -2056,3 +2056,10 @@ V("C20", "float_printer_not_registered", "fire", "R20.b", (Z, "script_repr_reg[f
 V("C20", "float_printer_forgets_nan", "fire", "R20.b", (Z, "    if rep in ('inf', '-inf', 'nan'):", "    if rep in ('inf', '-inf'):"))
 V("C20", "benign_tuple_delimiters_in_two_steps", "benign", None, (Z, "        d1,d2='(',(',)' if len(result)==1 else ')')", "        d1,d2='(',')'\n        if len(result)==1:\n            d2=',)'"))
 V("C20", "benign_float_printer_membership_as_list", "benign", None, (Z, "    if rep in ('inf', '-inf', 'nan'):", "    if rep in ['nan', 'inf', '-inf']:"))
+V("C20", "generated_name_carried_over", "fire", "R20.c", (Z, """            if k == 'name' and (values[k] is not None
+                                and re.match('^'+self.__class__.__name__+'[0-9]+$', values[k])):
+                continue
+""", ""))
+V("C20", "changed_explicit_keyword_suppressed", "fire", "R20.c", (Z, "            if (k in kwargs) and (k in values) and kwargs[k] == values[k]: continue", "            if (k in kwargs) and (k in values): continue"))
+V("C20", "keywords_before_positionals", "fire", "R20.c", (Z, "        arguments = arglist + keywords + (['**%s' % spec.varargs] if spec.varargs else [])", "        arguments = keywords + arglist + (['**%s' % spec.varargs] if spec.varargs else [])"))
+V("C20", "benign_processed_check_as_block", "benign", None, (Z, "            if k in processed: continue\n", "            if k in processed:\n                continue\n"))
